@@ -458,12 +458,204 @@ def corrupt(job):
 
 
 # ------------------------------------------------------------------------------------------------------
+# option arguments: every documented keyword at non-default values, method form == function form, stated threshold obeyed
+# ------------------------------------------------------------------------------------------------------
+def gate_fx(g):
+    """Gate -> fixed-point record (angle in micro-radians); no grid needed."""
+    par = g.parameter
+    p = 0
+    if not isinstance(par, str):
+        try:
+            p = int(round(float(par) * 1e6))
+        except (TypeError, ValueError):
+            p = 0
+    return {"name": g.name, "t": [int(x) for x in g.target], "c": [int(x) for x in (g.control or [])], "p": p,
+            "v": bool(g.is_variational)}
+
+
+def dump_fx(c):
+    return [gate_fx(g) for g in c]
+
+
+def build_fx(gs, fixed_n=0):
+    from tangelo.linq import Gate, Circuit
+    gl = []
+    for j in gs:
+        ctrl = list(j["c"]) if j["c"] else None
+        if j["name"] in PARAM_GATES:
+            gl.append(Gate(j["name"], list(j["t"]), ctrl, parameter=j["p"] * 1e-6, is_variational=bool(j["v"])))
+        else:
+            gl.append(Gate(j["name"], list(j["t"]), ctrl))
+    return Circuit(gl, n_qubits=(fixed_n or None))
+
+
+def call_form(gs, fixed_n, op, form, kw):
+    """Run one pass in function or method form. Returns (raised, gate dump, width, input-after dump)."""
+    from tangelo.linq import circuit as cmod
+    c = build_fx(gs, fixed_n)
+    try:
+        if form == "fn":
+            out = getattr(cmod, OPNAME[op])(c, **kw)
+        else:
+            getattr(c, OPNAME[op])(**kw)
+            out = c
+    except Exception:
+        return True, [], 0, dump_fx(c)
+    return False, dump_fx(out), int(out.width), dump_fx(c)
+
+
+THR_VALUES = [0.0, 1e-8, 1e-5, None, 2e-3, 0.5]          # None = keyword omitted (default 1e-3)
+
+
+def option_grid(op):
+    """Every documented keyword of the pass, below / at / above its default."""
+    if op == "merge":
+        return [{}]
+    if op == "redundant":
+        return [{"remove_qubits": rq} for rq in (False, True)]
+    if op == "small":
+        return [dict(({"param_threshold": t} if t is not None else {}), remove_qubits=rq) for t in THR_VALUES for rq in (False, True)]
+    out = []
+    for t in THR_VALUES:
+        for mc in (None, 0, 1, 2):
+            kw = {"remove_qubits": (mc == 1)}
+            if t is not None:
+                kw["param_threshold"] = t
+            if mc is not None:
+                kw["max_cycles"] = mc
+            out.append(kw)
+    return out
+
+
+def operator_distance(gs_in, gs_out, n):
+    """Numeric tail: || U_out - e^{i phi} U_in ||_2 through the cirq translator (trusted: C01)."""
+    import numpy as np
+    import cirq
+    from tangelo.linq.translator import translate_circuit
+    us = []
+    for gs in (gs_in, gs_out):
+        cc = translate_circuit(build_fx(gs, n), "cirq")
+        us.append(cirq.unitary(cc) if n else np.eye(1))
+    tr = np.trace(us[0].conj().T @ us[1])
+    ph = tr / abs(tr) if abs(tr) > 1e-12 else 1.0
+    return float(np.linalg.norm(us[1] - ph * us[0], 2))
+
+
+def options_part(chk, rng, grid_corpus):
+    """(a) method form == function form for every keyword value; (b) stated threshold obeyed (fixed point, TLC);
+    (c) numeric tail: operator distance <= deleted gates * threshold / 2."""
+    quick = chk.quick
+    cfg = "CONSTANTS MaxLen = 2\nExport = TRUE\nINIT Init\nNEXT Next\nINVARIANT DropModelSound\nINVARIANT ThresholdMatters\nINVARIANT ExportAll\n"
+    tag = "grid" if grid_corpus is not None else "fx"
+    pick = []
+    if grid_corpus is None:
+        r = tlc.run("C09Threshold", cfg, "c09/thr_gen", workers=4, timeout=3600)
+        if not r.ok:
+            raise tlc.TLCError("C09Threshold: drop model violates the deletion contract: %s\n%s" % (r.violated, r.out[-2000:]))
+        account(chk, r, "S_thresholds")
+        circs = r.prints("CIRC")
+        singles = [c for c in circs if len(c) == 1]
+        pairs = [c for c in circs if len(c) == 2]
+        pick = singles + [pairs[i] for i in sorted(rng.sample(range(len(pairs)), min(len(pairs), 500 if quick else 4000)))]
+        chk.part("S_thresholds", circuits_exported=len(circs), replayed=len(pick))
+    jobs, meta = [], {}
+
+    def add(job, case):
+        job["id"] = len(jobs) + 1
+        jobs.append(job)
+        meta[job["id"]] = case
+    tail = []
+    # fixed-point circuits: all passes, all keyword values, both forms
+    for ci, gs in enumerate(pick):
+        fixed_n = rng.choice([0, 0, 2, 4])
+        for op in ("small", "simplify", "redundant", "merge"):
+            grid = option_grid(op)
+            if op == "simplify" and ci % 4:
+                grid = grid[ci % 3::3]
+            for kw in grid:
+                case = {"opt": True, "in": gs, "fixedN": fixed_n, "op": op, "kw": kw}
+                rf, of, wf, af = call_form(gs, fixed_n, op, "fn", kw)
+                rm, om, wm, _ = call_form(gs, fixed_n, op, "method", kw)
+                add({"kind": "formeq", "op": op, "out_fn": of, "out_m": om, "w_fn": wf, "w_m": wm, "r_fn": rf, "r_m": rm}, dict(case, check="formeq"))
+                if op in ("small", "simplify") and not rf:
+                    thr = kw.get("param_threshold", 1e-3)
+                    t6 = int(round(thr * 1e6))
+                    jin = dump_fx(build_fx(gs, fixed_n))
+                    if op == "small" or kw.get("max_cycles") != 0:
+                        add({"kind": "thr", "op": op, "in": jin, "out": of, "after": af, "inplace": False, "T6": t6}, dict(case, check="thr", form="fn"))
+                        if not rm:
+                            add({"kind": "thr", "op": op, "in": jin, "out": om, "after": [], "inplace": True, "T6": t6}, dict(case, check="thr", form="method"))
+                    if (len(gs) == 1 and not kw.get("remove_qubits") and "max_cycles" not in kw) or (ci + len(tail)) % (7 if quick else 3) == 0:
+                        tail.append((case, jin, of, om if not rm else None, thr))
+    # grid corpus (TLC circuits of C09Transform): method == function on every keyword value
+    sub = [g for g in (grid_corpus or []) if 1 <= len(g[0]) <= 6]
+    for gs, m in [sub[i] for i in sorted(rng.sample(range(len(sub)), min(len(sub), 150 if quick else 1500)))]:
+        gfx = [{"name": g["name"], "t": g["t"], "c": g["c"], "v": g["v"], "p": int(round(k_to_angle(g["k"], m["M"]) * 1e6))} for g in gs]
+        for op in ("small", "simplify", "redundant", "merge"):
+            for kw in option_grid(op)[:: (1 if op != "simplify" else 2)]:
+                rf, of, wf, _ = call_form(gfx, 0, op, "fn", kw)
+                rm, om, wm, _ = call_form(gfx, 0, op, "method", kw)
+                add({"kind": "formeq", "op": op, "out_fn": of, "out_m": om, "w_fn": wf, "w_m": wm, "r_fn": rf, "r_m": rm},
+                    {"opt": True, "in": gfx, "fixedN": 0, "op": op, "kw": kw, "check": "formeq"})
+    # negative controls
+    ctl = []
+    for j in jobs:
+        if j["kind"] == "thr" and j["T6"] <= 10 and len(ctl) < 20 and any(g["name"] in ("RX", "RZ", "CRZ") and 300 <= abs(g["p"]) <= 900 for g in j["out"]):
+            c = copy.deepcopy(j)
+            c["out"] = [g for g in c["out"] if not (g["name"] in ("RX", "RZ", "CRZ") and 300 <= abs(g["p"]) <= 900)]
+            c["id"] = 10 ** 7 + len(ctl)
+            ctl.append(c)
+        if j["kind"] == "formeq" and not j["r_fn"] and j["out_m"] and j["out_m"] == j["out_fn"] and len(ctl) < 40 and j["id"] % 50 == 0:
+            c = copy.deepcopy(j)
+            c["out_m"] = c["out_m"][:-1]
+            c["id"] = 10 ** 7 + len(ctl)
+            ctl.append(c)
+    verdicts, results = tlc.judge("C09ThrTrace", jobs + ctl, "c09/thr_" + tag, {}, max_parallel=min(PAR, 6), timeout=3600)
+    for rr in results:
+        chk.add_tlc(rr)
+    stat = {"formeq": 0, "thr": 0, "failing": 0}
+    for j in jobs:
+        chk.add_traces(1, "options_" + j["kind"])
+        stat[j["kind"]] += 1
+        case = meta[j["id"]]
+        for cl in json.loads(verdicts[j["id"]]):
+            stat["failing"] += 1
+            kwname = "+".join(sorted(case["kw"])) or "no-keyword"
+            chk.violation("%s:%s:%s" % (OPNAME[case["op"]], cl, kwname),
+                          "%s(%s) on %s: clause '%s'" % (OPNAME[case["op"]], case["kw"], json.dumps(case["in"])[:300], cl), case)
+    bad_ctl = [c["id"] for c in ctl if not json.loads(verdicts[c["id"]])]
+    if bad_ctl or (not ctl and grid_corpus is None):
+        raise tlc.TLCError("binding failure: corrupted option records accepted by C09ThrTrace (%d of %d)" % (len(bad_ctl), len(ctl)))
+    # (c) numeric tail (labelled: numpy/cirq, not TLC): operator distance allowed by the STATED threshold
+    worst = 0.0
+    for case, jin, of, om, thr in tail:
+        n = max([q for g in jin for q in g["t"] + g["c"]] + [0]) + 1
+        for form, out in (("fn", of), ("method", om)):
+            if out is None:
+                continue
+            d = operator_distance(jin, out, n)
+            bound = len(jin) * thr / 2 + 1e-7
+            worst = max(worst, d - bound)
+            if d > bound:
+                chk.violation("%s:numeric-tail-distance-exceeds-threshold-bound:%s" % (OPNAME[case["op"]], form),
+                              "operator distance %.3g > %d gates * threshold %g / 2" % (d, len(jin), thr), dict(case, check="tail", form=form))
+    chk.part("options_" + tag, **stat, negative_controls=len(ctl), numeric_tail_records=len(tail),
+             numeric_tail_note="operator distance via cirq unitaries (numpy), bound = gates * stated threshold / 2; labelled numeric tail, "
+                               "not decided by TLC", keyword_values={"param_threshold": [t for t in THR_VALUES], "max_cycles": [None, 0, 1, 2],
+                                                                     "remove_qubits": [False, True]})
+
+
+# ------------------------------------------------------------------------------------------------------
 def run(chk):
     rng = random.Random(chk.seed)
     quick = chk.quick
     expected_counterexample(chk)
     runs = plan_runs(chk)
-    results = tlc.run_many([r[1] for r in runs], max_parallel=min(PAR, 6))
+    import concurrent.futures as cf
+    with cf.ThreadPoolExecutor(max_workers=1) as ex:      # the fixed-point option checks run next to the ring-engine S phase
+        fut = ex.submit(options_part, chk, random.Random(chk.seed + 7), None)
+        results = tlc.run_many([r[1] for r in runs], max_parallel=min(PAR, 6))
+        fut.result()
     corpus = []          # (gates, meta)
     alphabet, alphabet3 = {}, {}
     for (name, kw, meta), r in zip(runs, results):
@@ -486,6 +678,7 @@ def run(chk):
         chk.part("S_" + name, circuits_exported=n, qubits=meta["qs"], role=meta["role"])
     if not corpus:
         raise tlc.TLCError("generator exported no circuit")
+    options_part(chk, random.Random(chk.seed + 8), corpus)
     # ---- cases ------------------------------------------------------------------------------------------
     cases = []
     by_role = {}
@@ -651,6 +844,30 @@ def replay(chk, rec):
     known finding - are printed but do not decide)."""
     case = rec["case"]
     clause = rec.get("key", "::").split(":")[1] if rec.get("key") else None
+    if case.get("opt"):
+        gs, n, op, kw = case["in"], case["fixedN"], case["op"], case["kw"]
+        rf, of, wf, af = call_form(gs, n, op, "fn", kw)
+        rm, om, wm, _ = call_form(gs, n, op, "method", kw)
+        print("%s(%s) on %s" % (OPNAME[op], kw, json.dumps(gs)))
+        print("  function form: raised=%s width=%s gates=%s" % (rf, wf, json.dumps(of)))
+        print("  method form  : raised=%s width=%s gates=%s" % (rm, wm, json.dumps(om)))
+        jin = dump_fx(build_fx(gs, n))
+        t6 = int(round(kw.get("param_threshold", 1e-3) * 1e6))
+        jobs = [{"id": 1, "kind": "formeq", "op": op, "out_fn": of, "out_m": om, "w_fn": wf, "w_m": wm, "r_fn": rf, "r_m": rm}]
+        if (op == "small" or (op == "simplify" and kw.get("max_cycles") != 0)) and not rf and not rm:
+            jobs += [{"id": 2, "kind": "thr", "op": op, "in": jin, "out": of, "after": af, "inplace": False, "T6": t6},
+                     {"id": 3, "kind": "thr", "op": op, "in": jin, "out": om, "after": [], "inplace": True, "T6": t6}]
+        v, _ = tlc.judge("C09ThrTrace", jobs, "c09/replay", {})
+        cl = [c for k in v for c in json.loads(v[k])]
+        if case.get("check") == "tail":
+            nq = max([q for g in jin for q in g["t"] + g["c"]] + [0]) + 1
+            thr = kw.get("param_threshold", 1e-3)
+            out = of if case.get("form") == "fn" else om
+            d = operator_distance(jin, out, nq)
+            print("  numeric tail: distance %.3g, bound %.3g" % (d, len(jin) * thr / 2 + 1e-7))
+            return d <= len(jin) * thr / 2 + 1e-7
+        print("  TLC verdict:", cl)
+        return clause not in cl
     try:
         job = execute(case)
     except EnabledRaised as e:
